@@ -208,6 +208,9 @@ func (fr *Frame) call(st *State, instr ssa.Instruction, c *ssa.CallCommon, v ssa
 	fr.countCall(st, name)
 	setResult := func(r []Val) {
 		vc.lastRet[name] = r
+		if fr.top {
+			vc.retLog = append(vc.retLog, retEntry{name, vc.curBlock, r, vc.callN[name]})
+		}
 		if v == nil {
 			return
 		}
@@ -279,10 +282,13 @@ func (fr *Frame) call(st *State, instr ssa.Instruction, c *ssa.CallCommon, v ssa
 // recordRet remembers the results of the latest call to name (for ret() in contracts).
 func (fr *Frame) recordRet(name string, v ssa.Value) {
 	r := fr.vals[v]
+	vals := []Val{r}
 	if r.Tuple != nil {
-		fr.vc.lastRet[name] = r.Tuple
-	} else {
-		fr.vc.lastRet[name] = []Val{r}
+		vals = r.Tuple
+	}
+	fr.vc.lastRet[name] = vals
+	if fr.top {
+		fr.vc.retLog = append(fr.vc.retLog, retEntry{name, fr.vc.curBlock, vals, fr.vc.callN[name]})
 	}
 }
 
@@ -293,11 +299,30 @@ func (fr *Frame) assertAt(st *State, name string, args []Val, pos token.Pos) {
 		return
 	}
 	vc.callN[name]++
+	vc.siteBlock = vc.curBlock
+	defer func() { vc.siteBlock = nil }()
+	srcLine := ""
 	for _, a := range vc.con.Asserts {
-		if !calleeMatch(name, a.Callee) {
+		key := name
+		if i := strings.Index(a.Callee, "~"); i >= 0 {
+			// callee~source_line_text : only sites whose source line reads like that
+			if !calleeMatch(name, a.Callee[:i]) {
+				continue
+			}
+			if srcLine == "" {
+				srcLine = vc.eng.sourceLine(pos)
+			}
+			want := strings.ReplaceAll(a.Callee[i+1:], "_", " ")
+			if strings.Join(strings.Fields(srcLine), " ") != strings.Join(strings.Fields(want), " ") {
+				continue
+			}
+			// ordinal by source order among the lines of this function with that text
+			if a.Nth != 0 && a.Nth != vc.eng.lineOrdinal(vc.fn, pos, want) {
+				continue
+			}
+		} else if !calleeMatch(name, a.Callee) {
 			continue
-		}
-		if a.Nth != 0 && a.Nth != vc.callN[name] {
+		} else if a.Nth != 0 && a.Nth != vc.callN[key] {
 			continue
 		}
 		binds := vc.topBinds()
@@ -787,6 +812,11 @@ func (fr *Frame) finishPanics() {
 		// control resumes at the recover block with the named results
 		rs := ps.clone()
 		rs.reach = vc.define("recovered", "Bool", smtAnd(ps.reach, rec))
+		if vc.eng.cs.GhostNames["recovered"] {
+			// ghost: this activation resumed at its recover block
+			g := vc.ghostVar("recovered")
+			vc.set(rs, g, "(+ "+vc.get(rs, g)+" 1)")
+		}
 		for _, instr := range fr.fn.Recover.Instrs {
 			if !fr.step(rs, instr) {
 				break
@@ -970,6 +1000,11 @@ func (fr *Frame) externalFacts(st *State, callee *ssa.Function, args []Val, v ss
 			vc.assume("(not (= " + r.T + " nil))")
 		} else if r.T != "" && vc.sortOf(r.Ty) == "Iface" {
 			vc.assume("(not (= (i.tag " + r.T + ") 0))")
+		}
+	case "runtime.Stack":
+		if r.T != "" && len(args) > 0 {
+			vc.assume(fmt.Sprintf("(and (>= %s 1) (<= %s (s.len %s)))", r.T, r.T, args[0].T))
+			vc.note("assumed contract runtime.Stack: 1 <= n <= len(buf)")
 		}
 	case "errors.New":
 		vc.assume("(not (= (i.tag " + r.T + ") 0))")
